@@ -29,6 +29,7 @@ def summarize(run, recs, mode):
 
 def run(run, args):
     n, maxlen = (100, 24) if run.tier == "quick" else (1200, 40)
+    n *= run.scale
     head, recs = complib.run_comp(run, "c02", n, maxlen)
     res, errors = complib.eval_hists(run, head, recs, EVALS)
     summarize(run, recs, "c02")
